@@ -407,6 +407,24 @@ def gen_scenarios(rng):
         ops.append({"op": "manage", "now": now, "kind": "requeue_dead", "ids": ["d0", "d%d" % (n - 1)]})
         ops.append({"op": "stats", "now": now})
         hs.append({"cfg": cfg, "ops": ops, "snap_every": 1, "c13_ok": True})
+    # S10: the memory-pressure guard is active (retained messages at the item limit) and refuses enqueues shortly AFTER a prune pass, while a
+    #      queued message is within one prune interval of its max_age: a refused enqueue changes nothing, the message stays until it is due
+    for k in range(2):
+        age, iv = 60 * SEC, 20 * SEC
+        cfg = _cfg0(ret_age=age, prune_iv=iv, press_items=2)
+        t0 = BASE + rng.randrange(1000) * SEC
+        ops = [{"op": "enqueue", "now": t0, "enq": [_enq("keep", route="r1", body=120)]},
+               {"op": "enqueue", "now": t0 + SEC, "enq": [_enq("p0", body=121)]}, {"op": "enqueue", "now": t0 + SEC, "enq": [_enq("p1", body=122)]},
+               {"op": "dequeue", "now": t0 + 2 * SEC, "route": "r0", "target": "", "batch": 2, "ttl": 3600 * SEC}]
+        d0 = len(ops) - 1
+        ops += [{"op": "lease", "now": t0 + 3 * SEC, "kind": "dead", "dur": 0, "reason": "boom", "lease": {"ref": [d0, 0]}},
+                {"op": "lease", "now": t0 + 3 * SEC, "kind": "dead", "dur": 0, "reason": "boom", "lease": {"ref": [d0, 1]}},
+                {"op": "stats", "now": t0 + 5 * SEC}, {"op": "stats", "now": t0 + 45 * SEC}]
+        for j, at in enumerate([50, 52, 55] if k == 0 else [46, 58]):
+            ops.append({"op": "enqueue" if j % 2 == 0 else "enqueue_batch", "now": t0 + at * SEC, "enq": [_enq("late%d" % j, body=130 + j)]})
+        ops.append({"op": "stats", "now": t0 + 59 * SEC})
+        ops.append({"op": "dequeue", "now": t0 + 59 * SEC, "route": "r1", "target": "", "batch": 1, "ttl": SEC})
+        hs.append({"cfg": cfg, "ops": ops, "snap_every": 1})
     # S9: more (route, target) buckets than Stats lists (ten), the oldest / earliest-due queued message alone in a small bucket
     for k in range(2):
         now = BASE + rng.randrange(1000) * SEC
